@@ -68,6 +68,11 @@ fn step_zbdd(s: &mut Mach, ins: &Instr, model: &mut Model, ctx: &mut RunCtx) -> 
                 ZUnOp::Change => x.change(v),
             })]
         }),
+        // make_node requires the variable to be above both children: a precondition on the
+        // CURRENT order, which nobody can establish while another thread may reorder
+        ZMakeNode { .. } if ctx.order_unstable => {
+            ctx.stats.bump("instr.skipped");
+        }
         ZMakeNode { v, hi, lo, .. } => s.exec_eval(ins, model, ctx, |s| {
             let (h, l) = (s.reg(*hi).unwrap().clone(), s.reg(*lo).unwrap().clone());
             let v = *v as u32;
